@@ -302,3 +302,97 @@ Example C01_ex_ring : wf3 ex_ring /\ forall o, @build3 ROps ex_ring = Some o -> 
 Proof. exact (conj ex_ring_wf ex_ring_enclosed). Qed.
 Example C01_ex_twisted_slice : wf3 ex_twisted_slice /\ forall o, @build3 ROps ex_twisted_slice = Some o -> enc3 o.
 Proof. exact (conj ex_twisted_slice_wf ex_twisted_slice_enclosed). Qed.
+
+(* ============================================================ reified library objects
+   Per-object certificates (DESIGN.md 2.2).  The hook sdf.VerifDumpTree2/3 reads any Go shape back
+   into a tree of Sdf/Reify.v (RShape2/RShape3: the 38 constructors above, the polygon-mesh leaf
+   RMesh2 = MeshSDF2 over its quadtree pieces, Cache2D, Screw3D, and opaque leaves for Go types without a
+   model); the run prints it over exact rationals, replays it at primitive floats against the
+   object's own BoundingBox()/Evaluate(), and evaluates the boolean checker wfb2/wfb3 on it.
+   The theorems below make `wfb3 t = true` a proof about the real-number object denoted by t. *)
+From Coq Require Import QArith.
+From Sdfx Require Import Num.QInst Sdf.Poly Sdf.PolyR Sdf.Reify Sdf.ReifyR Sdf.ReifyCheck Sdf.ReifyBuild Sdf.ReifyEx.
+Open Scope R_scope.
+
+(* a polygon mesh: box ordered, every segment end point in the box, every start point an end point
+   (with multiplicity: closed chains) - then the crossing number is 0 at every point outside the box *)
+Theorem C01_mesh2_encloses : forall (segs : list (Seg ROps)) (bb : Box2 ROps) o,
+  mesh_ok segs bb -> @k_mesh2 ROps segs bb = Some o -> enc2 o.
+Proof. exact mesh2_enc. Qed.
+Print Assumptions C01_mesh2_encloses.
+(* Offset2D directly over a mesh (obj.Hex2D): non-degenerate segments, 0 <= offset, offset^2 < MaxFloat64 *)
+Theorem C01_mesh_offset2_encloses : forall (segs : list (Seg ROps)) (bb : Box2 ROps) off o1 o,
+  mesh_ok segs bb -> Forall nondeg segs -> 0 <= off -> off * off < Rmaxfloat ->
+  @k_mesh2 ROps segs bb = Some o1 -> @k_offset2 ROps o1 off = Some o -> enc2 o.
+Proof. exact mesh_offset2_enc. Qed.
+Print Assumptions C01_mesh_offset2_encloses.
+
+(* Screw3D (bolts, nuts, threaded parts): any thread profile that is enclosed by its box and whose box
+   top (the screw radius) is >= 0; every taper in [0, pi/2), any pitch, starts of either hand *)
+Theorem C01_screw_encloses : forall (th : Obj2 ROps) length taper pitch starts o,
+  enc2 th -> 0 <= vy (b2max (bb2 th)) -> @k_screw ROps th length taper pitch starts = Some o -> enc3 o.
+Proof. exact screw_enc. Qed.
+Print Assumptions C01_screw_encloses.
+
+(* all compositions over the extended trees, relative to the opaque leaves (leaves2/leaves3: each
+   opaque leaf in a material-carrying position is negative only inside its own box) *)
+Theorem C01_reified_compositions : forall (E : Env ROps) (s : RShape3 ROps) o,
+  rwf3 s -> leaves3 E s -> interp3 E s = Some o -> enc3 o.
+Proof. exact reified_compositions3. Qed.
+Print Assumptions C01_reified_compositions.
+Theorem C01_reified_compositions_2d : forall (E : Env ROps) (s : RShape2 ROps) o,
+  rwf2 s -> leaves2 E s -> interp2 E s = Some o -> enc2 o.
+Proof. exact reified_compositions2. Qed.
+Print Assumptions C01_reified_compositions_2d.
+
+(* soundness of the checker that runs at exact rationals: every side condition it accepts holds for
+   the parameters injected into R (determinants, exact translations / orthonormal matrices, closed
+   chains of mesh segments by multiset equality of start and end points, ...) *)
+Theorem C01_wf_check_sound : forall t : RShape3 QOps, wfb3 t = true -> rwf3 (inj3 t).
+Proof. exact wfb3_sound. Qed.
+Print Assumptions C01_wf_check_sound.
+Theorem C01_wf_check_sound_2d : forall t : RShape2 QOps, wfb2 t = true -> rwf2 (inj2 t).
+Proof. exact wfb2_sound. Qed.
+Print Assumptions C01_wf_check_sound_2d.
+
+(* the certificate: checker verdict true => the box of the denoted object contains every point of
+   space with a negative value (relative to the leaf hypothesis; unconditionally without opaque leaves) *)
+Theorem C01_reified_certificate3 : forall t : RShape3 QOps, wfb3 t = true ->
+  forall (E : Env ROps) o, leaves3 E (inj3 t) -> interp3 E (inj3 t) = Some o -> enc3 o.
+Proof. exact reified_certificate3. Qed.
+Print Assumptions C01_reified_certificate3.
+Theorem C01_reified_certificate2 : forall t : RShape2 QOps, wfb2 t = true ->
+  forall (E : Env ROps) o, leaves2 E (inj2 t) -> interp2 E (inj2 t) = Some o -> enc2 o.
+Proof. exact reified_certificate2. Qed.
+Print Assumptions C01_reified_certificate2.
+Theorem C01_reified_certificate3_closed : forall t : RShape3 QOps, wfb3 t = true -> opaque_free3 t = true ->
+  forall (E : Env ROps) o, interp3 E (inj3 t) = Some o -> enc3 o.
+Proof. exact reified_certificate3_closed. Qed.
+Print Assumptions C01_reified_certificate3_closed.
+Theorem C01_reified_certificate2_closed : forall t : RShape2 QOps, wfb2 t = true -> opaque_free2 t = true ->
+  forall (E : Env ROps) o, interp2 E (inj2 t) = Some o -> enc2 o.
+Proof. exact reified_certificate2_closed. Qed.
+Print Assumptions C01_reified_certificate2_closed.
+
+(* non-vacuity: the constructors' own argument checks evaluated on the dumped rationals (buildsb) imply
+   that the tree builds over the reals, so the certificate comes with its witness *)
+Theorem C01_reified_builds : forall (E : Env ROps) (t : RShape3 QOps), buildsb3 t = true ->
+  exists o, interp3 E (inj3 t) = Some o.
+Proof. exact builds3. Qed.
+Print Assumptions C01_reified_builds.
+Theorem C01_reified_certificate3_total : forall t : RShape3 QOps,
+  wfb3 t = true -> buildsb3 t = true -> opaque_free3 t = true ->
+  forall E : Env ROps, exists o, interp3 E (inj3 t) = Some o /\ enc3 o.
+Proof. exact reified_certificate3_total. Qed.
+Print Assumptions C01_reified_certificate3_total.
+Theorem C01_reified_certificate2_total : forall t : RShape2 QOps,
+  wfb2 t = true -> buildsb2 t = true -> opaque_free2 t = true ->
+  forall E : Env ROps, exists o, interp2 E (inj2 t) = Some o /\ enc2 o.
+Proof. exact reified_certificate2_total. Qed.
+Print Assumptions C01_reified_certificate2_total.
+
+(* the hypotheses are satisfiable: an offset polygon mesh, extruded and translated, minus an
+   unmodelled shape, is accepted by the checker, builds, and is enclosed *)
+Example C01_ex_reified : wfb3 ex_part = true /\ (forall E, exists o, interp3 E (inj3 ex_part) = Some o) /\
+  forall E o, interp3 E (inj3 ex_part) = Some o -> enc3 o.
+Proof. exact (conj ex_part_wf (conj ex_part_builds ex_part_enclosed)). Qed.
